@@ -139,14 +139,29 @@ def run(ctx):
         comps = ["valid", "low", "high", "mixed", "mixed-mostly-high", "mixed-rare-high"]
         done = 0
         bi = 0
-        plan = [(sz, cp) for cp in comps for sz in SIZES]  # the full cross product, every run
+        # energy layouts: scattered (every event its own energy), one tabulated energy for the whole
+        # batch (what a mono-energetic run passes), consecutive blocks of constant tabulated energies
+        # (an energy scan; blocks of 8192 coincide with the sampler's internal chunks), sorted
+        elayouts = ["scattered", "mono", "blocks-8192", "blocks-small", "sorted"]
+        plan = [(sz, cp, "scattered") for cp in comps for sz in SIZES]  # the full cross product, every run
+        plan += [(sz, cp, el) for cp in ("valid", "mixed") for sz in (8193, 20000) for el in elayouts[1:]]
         while done < npts or bi < len(plan):
             if bi < len(plan):
-                size, comp = plan[bi]
+                size, comp, elay = plan[bi]
             else:
-                size, comp = int(rng.choice(SIZES + [3, 17, 100, 1000])), comps[int(rng.integers(len(comps)))]
+                size, comp, elay = int(rng.choice(SIZES + [3, 17, 100, 1000])), comps[int(rng.integers(len(comps)))], elayouts[int(rng.integers(len(elayouts)))]
             bi += 1
             loge, beta = gen_points(rng, axE, axB, size)
+            if elay == "mono":
+                loge[:] = axE[int(rng.integers(axE.size))]
+            elif elay.startswith("blocks"):
+                bl = 8192 if elay == "blocks-8192" else int(rng.choice([1, 100, 4096, max(1, size // 3)]))
+                nb = -(-size // bl)
+                loge = np.repeat(rng.permutation(axE)[np.arange(nb) % axE.size], bl)[:size].astype(np.float64)
+            elif elay == "sorted":
+                loge = np.sort(loge)
+            comp_tag = comp
+            comp = comp  # (the angle composition below is independent of the energy layout)
             r = rng.random(size)
             if comp == "low":
                 beta = rng.uniform(0, bmin, size)
@@ -177,7 +192,7 @@ def run(ctx):
                 continue
             if beta.tobytes() != b0.tobytes() or loge.tobytes() != e0.tobytes() or u.tobytes() != u0.tobytes():
                 ctx.violation("inputs-modified", f"table v{version}: tau_energy modified its input arrays", {"version": version})
-            judge(loge, beta, u, np.asarray(E_tau), f"tau_energy size={size} {comp}")
+            judge(loge, beta, u, np.asarray(E_tau), f"tau_energy size={size} {comp} energies={elay}")
             ctx.distinct.add_rows(np.full(size, version), loge, beta, u)
             if version == 3 and bi <= 2:
                 ctx.sample({"version": version, "batch": size, "composition": comp, "first_event": {"log_e_nu": float(loge[0]), "beta_rad": float(beta[0]), "u": float(u[0]), "E_tau_GeV": float(E_tau[0])}})
@@ -289,6 +304,6 @@ def run(ctx):
     for m in ("pipeline", "call", "forward", "inverse", "range", "monotone", "low", "high", "reject", "explicit", "explicit-spy", "sampler-direct"):
         ctx.require(m)
     return ctx.finish(
-        rule="per table version: batches of size {1,2,8191,8192,8193,20000} in compositions {all in-table, all below-min, all above-max, mixed 25 % / 80 % / 0.2 % above-max}; (logE, beta) from nodes, cell centres, cell edges and interior; u uniform on [0, 1) plus hostile values (0, denormal .. 1-2^-53) and exact node CDF values incl. the first and last of each row; a case is a distinct (version, logE, beta, u)",
+        rule="per table version: batches of size {1,2,8191,8192,8193,20000} with energies scattered / one tabulated value / blocks of constant tabulated values (8192-aligned and not) / sorted, in compositions {all in-table, all below-min, all above-max, mixed 25 % / 80 % / 0.2 % above-max}; (logE, beta) from nodes, cell centres, cell edges and interior; u uniform on [0, 1) plus hostile values (0, denormal .. 1-2^-53) and exact node CDF values incl. the first and last of each row; a case is a distinct (version, logE, beta, u)",
         assumptions=["h5py reads the shipped tables", "F is the piecewise-linear function through the bilinearly blended node values", "'negligible' read as 0 < z <= 1e-5", "rejection demanded only when the out-of-table energy belongs to an event whose angle is looked up"],
     )
